@@ -272,15 +272,17 @@ class Bag(Factory, Container):
             else:
                 raise JsonFormatException(json["name"], "Bag.name")
 
-            if isinstance(json["range"], basestring):
+            # "N" (numbers), "N#" with a positive dimension # (vectors of numbers) or "S" (strings)
+            if isinstance(json["range"], basestring) and (
+                json["range"] in ("N", "S")
+                or (json["range"][:1] == "N" and json["range"][1:].isdigit() and int(json["range"][1:]) > 0)
+            ):
                 range = json["range"]
             else:
                 raise JsonFormatException(json["range"], "Bag.range")
+            dimension = int(range[1:]) if len(range) > 1 else 0
 
-            if json["values"] is None:
-                values = None
-
-            elif json["values"] is None or isinstance(json["values"], list):
+            if isinstance(json["values"], list):
                 values = {}
                 for i, nv in enumerate(json["values"]):
                     if isinstance(nv, dict) and hasKeys(nv.keys(), ["w", "v"]):
@@ -288,27 +290,34 @@ class Bag(Factory, Container):
                             n = float(nv["w"])
                         else:
                             raise JsonFormatException(nv["w"], f"Bag.values {i} n")
+                        if n < 0.0:
+                            raise JsonFormatException(nv["w"], f"Bag.values {i} n")
 
-                        # in a bag of strings "inf" and "-inf" are strings like any other, not spellings of numbers
-                        if range != "S" and (nv["v"] in ("nan", "inf", "-inf") or isinstance(nv["v"], numbers.Real)):
-                            v = floatOrNan(nv["v"])
-                        elif isinstance(nv["v"], basestring):
+                        # each value must be of the kind the range declares; in a bag of strings "inf" and "-inf" are
+                        # strings like any other, not spellings of numbers
+                        if range == "S":
+                            if not isinstance(nv["v"], basestring):
+                                raise JsonFormatException(nv["v"], f"Bag.values {i} v")
                             v = nv["v"]
-                        elif isinstance(nv["v"], (list, tuple)):
+                        elif range == "N":
+                            if nv["v"] not in ("nan", "inf", "-inf") and not isinstance(nv["v"], numbers.Real):
+                                raise JsonFormatException(nv["v"], f"Bag.values {i} v")
+                            v = floatOrNan(nv["v"])
+                        else:
+                            if not isinstance(nv["v"], (list, tuple)) or len(nv["v"]) != dimension:
+                                raise JsonFormatException(nv["v"], f"Bag.values {i} v")
                             for j, d in enumerate(nv["v"]):
                                 if d not in ("nan", "inf", "-inf") and not isinstance(d, numbers.Real):
                                     raise JsonFormatException(d, f"Bag.values {i} v {j}")
                             v = tuple(map(floatOrNan, nv["v"]))
-                        else:
-                            raise JsonFormatException(nv["v"], f"Bag.values {i} v")
 
+                        if v in values:
+                            # a value listed twice: one of the two weights would be dropped
+                            raise JsonFormatException(nv["v"], f"Bag.values {i} v (repeated)")
                         values[v] = n
 
                     else:
                         raise JsonFormatException(nv, f"Bag.values {i}")
-
-            elif json["values"] is None:
-                values = None
 
             else:
                 raise JsonFormatException(json["values"], "Bag.values")
